@@ -18,7 +18,27 @@ ASSUMPTIONS = ['numpy element-wise arithmetic and broadcasting', 'inputs are fin
 SHAPES = [(), (), (1,), (2,), (3,), (4,), (2, 2), (2, 3), (2, 1, 2)]
 
 
+NARROW = [('uint8', 0, 255), ('int8', -128, 127), ('int16', -32768, 32767), ('uint16', 0, 65535), ('int32', -2 ** 31, 2 ** 31 - 1),
+          ('int64', -2 ** 62, 2 ** 62)]
+
+
+def gen_narrow(rng, n, shape):
+    """fixed-width integer observations near the limits of their dtype (sums leave the dtype's range)"""
+    dt, lo, hi = rng.choice(NARROW)
+    k = int(np.prod(shape)) if shape else 1
+    vals = []
+    for _ in range(n):
+        a = [rng.choice([hi, hi - 1, lo, lo + 1, hi // 2 + 1, rng.randint(lo, hi)]) for _ in range(k)]
+        if shape == ():
+            vals.append({'arr': a[0], 'dtype': dt})       # 0-d array / numpy integer scalar
+        else:
+            vals.append({'arr': np.array(a, dtype=dt).reshape(shape).tolist(), 'dtype': dt})
+    return vals
+
+
 def gen_values(rng, n, shape, family):
+    if family == 'narrowint':
+        return gen_narrow(rng, n, shape)
     vals = []
     for _ in range(n):
         def one():
@@ -200,7 +220,7 @@ def check(ctx):
         shape = rng.choice(SHAPES)
         if kind == 'cov' and int(np.prod(shape)) > 4:
             shape = (2,)
-        family = rng.choice(['int', 'dyadic', 'tied', 'mixed', 'big'])
+        family = rng.choice(['int', 'dyadic', 'tied', 'mixed', 'big', 'narrowint'])
         n = rng.choice([1, 2, 3, 4, 5, 8, 13, 30] if ctx.quick else [1, 2, 3, 5, 8, 13, 30, 60, 150])
         cases.append((kind, gen_values(rng, n, shape, family), family))
     lines, spans, progs = [], [], []
